@@ -1,6 +1,9 @@
 import Afkak.ClientCache
 import Afkak.ClientNet
 import Afkak.Monitor.C08
+import Afkak.Monitor.C07
+import Afkak.Monitor.C11
+import Afkak.Monitor.C20
 import Driver.Util
 /-!
 Line-protocol driver for the `client` component (exe `model_client`).
@@ -297,7 +300,81 @@ def parseEv : List String → Option Ev
   | ["advance", dt] => do some (.advance (← parseRat dt))
   | _ => none
 
+
+/-! ### observed traces (recorded by the harness from the real client) and the trace monitors -/
+
+def parseTimerWhat (s : String) : Option TimerWhat :=
+  match s.splitOn ":" with
+  | ["mrtb", k] => k.toNat?.map .mrtb
+  | ["boot", j] => j.toNat?.map .boot
+  | _ => none
+
+def parseWhat (s : String) : Option ReqWhat :=
+  match s.splitOn ":" with
+  | "meta" :: rest => some (.metadata (splitList "+" (":".intercalate rest)))
+  | ["coord", g] => some (.coord g)
+  | ["group", g] => some (.group g)
+  | "payloads" :: rest => do some (.payloads [] (← (splitList "+" (":".intercalate rest)).mapM parseKey))
+  | _ => none
+
+def parseOpRes : List String → Option OpRes
+  | ["ok", "True"] => some .okTrue
+  | ["ok", "None"] => some .okNone
+  | ["responses", tags] => (parseInts tags).map .responses
+  | ["failedPayloads", tags, fl] => do
+    let fl ← (splitList "," fl).mapM (fun e => match e.splitOn ":" with
+      | i :: rest => do some ((← i.toNat?), (← parseKind (":".intercalate rest)))
+      | _ => none)
+    some (.failedPayloads (← parseInts tags) fl)
+  | ["simple", e] => e.toInt?.map .simple
+  | ["fail", k] => (parseKind k).map .fail
+  | _ => none
+
+def parseOb : List String → Option Ob
+  | ["bcNew", b, n, h, p] => do some (.bcNew (← b.toNat?) (← n.toInt?) h (← p.toInt?))
+  | ["bcUpdate", b, h, p] => do some (.bcUpdate (← b.toNat?) h (← p.toInt?))
+  | ["mk", k, b, e, w] => do some (.mk (← k.toNat?) (← b.toNat?) (← parseBool e) (← parseWhat w))
+  | ["setTimer", t, d] => do some (.setTimer (← parseTimerWhat t) (← parseRat d))
+  | ["cancelTimer", t] => do some (.cancelTimer (← parseTimerWhat t))
+  | ["bcCancel", k] => do some (.bcCancel (← k.toNat?))
+  | ["fired", k, r] => do some (.fired (← k.toNat?) (← if r == "ok" then some none else (parseKind r).map some))
+  | ["bcDisconnect", b] => do some (.bcDisconnect (← b.toNat?))
+  | ["bcClose", b] => do some (.bcClose (← b.toNat?))
+  | ["down", b] => do some (.down (← b.toNat?))
+  | ["bootConnect", j, h, p] => do some (.bootConnect (← j.toNat?) h (← p.toInt?))
+  | ["bootCancel", j] => do some (.bootCancel (← j.toNat?))
+  | ["bootWrite", j] => do some (.bootWrite (← j.toNat?))
+  | ["bootLose", j] => do some (.bootLose (← j.toNat?))
+  | "result" :: o :: rest => do some (.result (← o.toNat?) (← parseOpRes rest))
+  | ["closeFired", o] => do some (.closeFired (← o.toNat?))
+  | ["raised", o, c] => do some (.raised (← o.toNat?) c)
+  | ["late", k] => do some (.late (← k.toNat?))
+  | "bad-op" :: rest => some (.badOp (" ".intercalate rest))
+  | _ => none
+
+def parseTimers (s : String) : Option (List (TimerWhat × Rat)) :=
+  (splitList "," s).mapM (fun e => match e.splitOn "@" with
+    | [w, d] => do some ((← parseTimerWhat w), (← parseRat d))
+    | _ => none)
+
+def parseTItem : List String → Option TItem
+  | "t-ev" :: rest => do
+    let (ws, _) ← splitEnv rest
+    some (.ev (← parseEv ws))
+  | "t-ob" :: rest => (parseOb rest).map .ob
+  | "t-dump" :: rest => (parseCache rest).map .dump
+  | ["t-timers", l] => (parseTimers l).map .timers
+  | ["t-attr", k, o, idxs] => do some (.attr (← k.toNat?) (← o.toNat?) (← (splitList "," idxs).mapM (·.toNat?)))
+  | ["t-uattr", k, u] => do some (.uattr (← k.toNat?) (← u.toNat?))
+  | ["t-battr", j, u] => do some (.battr (← j.toNat?) (← u.toNat?))
+  | "t-net" :: rest => some (.net (" ".intercalate rest))
+  | _ => none
+
+def failsLine (fs : List String) : List String :=
+  if fs.isEmpty then ["ok"] else ["fail " ++ " ; ".intercalate fs]
+
 structure NetSt where
+  trace : List TItem := []
   cfg : Cfg := { timeout := 10, disconnectOnTimeout := false, bootHosts := [] }
   st : Afkak.ClientNet.St := {}
 
@@ -305,18 +382,27 @@ def netStep (n : NetSt) (ws : List String) : Option (NetSt × List String) :=
   match ws with
   | ["cfg", t, dot, hosts] => do
     let cfg : Cfg := { timeout := ← parseRat t, disconnectOnTimeout := ← parseBool dot, bootHosts := ← (splitList "," hosts).mapM parseHostPort }
-    some ({ cfg := cfg, st := {} }, ["ok"])
+    some ({ cfg := cfg, st := {}, trace := [] }, ["ok"])
+  | ["t-reset"] => some ({ n with trace := [] }, ["ok"])
+  | ["mon-c07"] => some (n, failsLine (Afkak.Monitor.C07.run n.cfg n.trace.reverse).fails)
+  | ["mon-c11"] => some (n, failsLine (Afkak.Monitor.C11.run n.cfg n.trace.reverse).fails)
+  | ["mon-c20"] => some (n, failsLine (Afkak.Monitor.C20.run n.trace.reverse).fails)
   | ["ndump"] =>
     some (n, dump n.st.cache ++
       ["timers " ++ showList (n.st.timers.map (fun t => s!"{showTimerWhat t.what}@{showRat t.due}")),
        "pending " ++ showNats ((n.st.reqs.filter (·.pending)).map (·.k)),
        "now " ++ showRat n.st.now,
        "closing " ++ (if n.st.closing then "1" else "0")])
-  | _ => do
+  | w :: _ =>
+    if w.startsWith "t-" then do
+      let it ← parseTItem ws
+      some ({ n with trace := it :: n.trace }, [])
+    else do
     let (ws', env) ← splitEnv ws
     let ev ← parseEv ws'
     let (st', obs) := Afkak.ClientNet.step n.cfg n.st env ev
     some ({ n with st := st' }, obs.map showOb)
+  | [] => none
 
 end Net
 
